@@ -192,25 +192,37 @@ static bool has_ub_input(const std::vector<GroupIn>& gs) {
   return false;
 }
 
-// cbmode 0: Execute(delta).  1: a DeltaCallback64 returning the constant |delta| (installed with SetDeltaCallback, as
-// Execute(cb, paths) does).  2: a callback returning |delta| + 0.5 * path_normals.size() (what the callback is *shown*).
+// cbmode 0: Execute(delta).  1: a DeltaCallback64 returning the constant |delta| (the used object gets it through
+// Execute(cb, paths), the fresh objects through SetDeltaCallback).  2: a callback returning |delta| + 0.5 * path_normals.size()
+// (what the callback is *shown*).  3: 0 at the vertices j = 1 mod 3, |delta| elsewhere.  4: 0 at the first and the last vertex
+// of every path.  5: 0 everywhere.
 static void cmd_off(Toks& t, std::ostream& os, int cbmode) {
   double ml = t.dbl(), at = t.dbl(); bool pc = t.b(), rs = t.b(); double delta = t.dbl();
   int ng = t.i32(); std::vector<GroupIn> gs;
   for (int i = 0; i < ng; ++i) { GroupIn g; g.jt = t.i32(); g.et = t.i32(); g.paths = t.paths(); gs.push_back(std::move(g)); }
   if (has_ub_input(gs)) { os << "SKIP empty-path-in-open-group"; return; }
   auto add_all = [&](ClipperOffset& co) { for (auto& g : gs) co.AddPaths(g.paths, (JoinType)g.jt, (EndType)g.et); };
-  auto setup = [&](ClipperOffset& co) {
-    if (cbmode == 1) co.SetDeltaCallback([delta](const Path64&, const PathD&, size_t, size_t) { return std::fabs(delta); });
-    if (cbmode == 2) co.SetDeltaCallback([delta](const Path64&, const PathD& n, size_t, size_t) { return std::fabs(delta) + 0.5 * (double)n.size(); });
-  };
+  DeltaCallback64 cb = nullptr;
+  if (cbmode == 1) cb = [delta](const Path64&, const PathD&, size_t, size_t) { return std::fabs(delta); };
+  if (cbmode == 2) cb = [delta](const Path64&, const PathD& n, size_t, size_t) { return std::fabs(delta) + 0.5 * (double)n.size(); };
+  if (cbmode == 3) cb = [delta](const Path64&, const PathD&, size_t j, size_t) { return (j % 3 == 1) ? 0.0 : std::fabs(delta); };
+  if (cbmode == 4) cb = [delta](const Path64& p, const PathD&, size_t j, size_t) { return (j == 0 || j + 1 == p.size()) ? 0.0 : std::fabs(delta); };
+  if (cbmode == 5) cb = [](const Path64&, const PathD&, size_t, size_t) { return 0.0; };
+  auto setup = [&](ClipperOffset& co) { if (cbmode) co.SetDeltaCallback(cb); };
   const double d = cbmode ? 1.0 : delta;      // Execute(cb, paths) calls Execute(1.0, paths)
-  Paths64 W, W2, W3, W4, W5; std::string T0, T1;
+  // result containers that are not empty when they are passed in (what they hold must not matter)
+  const Paths64 junk{ Path64{ {-7, -7}, {9, -7}, {9, 9} }, Path64{ {1, 1} } };
+  auto fill_tree = [](PolyTree64& tr) { ClipperOffset x; x.AddPath(Path64{ {0, 0}, {50, 0}, {50, 50}, {0, 50} }, JoinType::Miter, EndType::Polygon); x.Execute(5.0, tr); };
+  Paths64 W, W2 = junk, W3, W4, W5, WO; std::string T0, T1;
+  bool ov = true;
   {
-    ClipperOffset co(ml, at, pc, rs); setup(co); add_all(co);
-    co.Execute(d, W);
+    ClipperOffset co(ml, at, pc, rs); add_all(co);
+    // with a callback: the Execute(cb, paths) overload on the fresh object; it leaves the callback installed, which is what
+    // the Executes that follow on this object run with (the fresh objects they are compared with get it by SetDeltaCallback)
+    if (cbmode) co.Execute(cb, W); else co.Execute(d, W);
+    if (cbmode) { ClipperOffset cf(ml, at, pc, rs); setup(cf); add_all(cf); cf.Execute(1.0, WO); ov = (WO == W); }
     co.Execute(d, W2);
-    { PolyTree64 tr; co.Execute(d, tr); std::ostringstream s; ser_tree(s, tr); T1 = s.str(); }
+    { PolyTree64 tr; fill_tree(tr); co.Execute(d, tr); std::ostringstream s; ser_tree(s, tr); T1 = s.str(); }
     co.Execute(d, W3);
     { Paths64 tmp; co.Execute(cbmode ? 1.0 : -1.75 * delta, tmp); }   // another delta in between
     co.Execute(d, W4);
@@ -242,7 +254,7 @@ static void cmd_off(Toks& t, std::ostream& os, int cbmode) {
     for (size_t i = 0; i < x.size(); ++i) for (int k = 0; k < 4; ++k) if (std::llabs(x[i][k] - y[i][k]) > 1) return false;
     return true; };
   bool bx = near(W2, W) && near(W3, W) && near(W4, W) && near(W5, W);
-  os << "OK e2=" << (W2 == W) << " t=" << (T0 == T1) << " e3=" << (W3 == W) << " d2=" << (W4 == W) << " cl=" << (W5 == W) << " so=" << (S1 == W) << " so2=" << (S2 == W) << " bx=" << bx << " W "; put(os, W);
+  os << "OK ov=" << ov << " e2=" << (W2 == W) << " t=" << (T0 == T1) << " e3=" << (W3 == W) << " d2=" << (W4 == W) << " cl=" << (W5 == W) << " so=" << (S1 == W) << " so2=" << (S2 == W) << " bx=" << bx << " W "; put(os, W);
   os << " NG " << gs.size();
   for (auto& g : gs) {
     Paths64 G; { ClipperOffset co(ml, at, pc, rs); setup(co); co.AddPaths(g.paths, (JoinType)g.jt, (EndType)g.et); co.Execute(d, G); }
